@@ -182,10 +182,12 @@ Lemma conv_assign_ok : forall alts s src v, wfv alts s ->
   conv_assign alts s src v =
   Ok (match select alts src with Some j => Some (replace j (conv src (alt_ty alts j) v)) | None => None end).
 Proof.
-  intros alts s src v H. unfold conv_assign. destruct (select alts src) as [j|]; [|reflexivity].
-  destruct (Nat.eqb (idx s) j) eqn:E.
-  - apply Nat.eqb_eq in E. unfold uget. rewrite <- E, Nat.eqb_refl. reflexivity.
-  - rewrite emplace_ok by exact H. reflexivity.
+  intros alts s src v H. unfold conv_assign. destruct (select alts src) as [j|] eqn:Es; [|reflexivity].
+  destruct (is_class (alt_ty alts j)).
+  - destruct (Nat.eqb (idx s) j) eqn:E.
+    + apply Nat.eqb_eq in E. unfold uget. rewrite <- E, Nat.eqb_refl. reflexivity.
+    + rewrite emplace_ok by exact H. reflexivity.
+  - rewrite assign_temp_ok; [reflexivity|exact H|]. apply (select_lt _ _ _ Es).
 Qed.
 
 (** ** one step refines the standard *)
